@@ -43,6 +43,7 @@ typedef struct sim_knobs {
 	unsigned unusual_mask; int unusual_den;
 	int futexspur_den, semeintr_den, epeintr_den;
 	int sigmiss_den;      // signalfd read misfires with EAGAIN (signal taken by the legacy path, raised again)
+	int clkread_ns;       // every clock read of the code under test moves the simulated clocks on by this much (two consecutive reads differ)
 	int iofault_den; unsigned iofault_mask;
 	int alloc_den, thrfail_den;
 	int timefault_den; unsigned timefault_mask; // bit0 warp, bit1 wall jump fwd, bit2 wall jump back
